@@ -70,8 +70,19 @@ MinTrues(Ss) == Cardinality({i \in DOMAIN Ss : Ss[i] = {"T"}})
 MaxTrues(Ss) == Cardinality({i \in DOMAIN Ss : "T" \in Ss[i]})
 
 AllS(Ss) == AndS(Ss)
-(* of(n) over sets: by explicit product (operand sets are singletons except on open predicates) *)
-OfS(n, Ss) == UNION {OfAdm(n, rs) : rs \in {r \in [DOMAIN Ss -> Tri] : \A i \in DOMAIN Ss : r[i] \in Ss[i]}}
+(* of(n) over sets, in closed form (the product has 3^k vectors; lists of 130 members occur).   *)
+(* minT: trues no choice can avoid; maxT: trues some choice reaches; MinTNoF: fewest trues among *)
+(* the choices without a false (an operand that cannot be missing must then be true).           *)
+MinTNoF(Ss) == Cardinality({i \in DOMAIN Ss : "M" \notin Ss[i]})
+OfS(n, Ss) ==
+  IF n >= 1
+  THEN (IF MaxTrues(Ss) >= n THEN {"T"} ELSE {})
+       \cup (IF n > Len(Ss) THEN NonTrueSet
+             ELSE (IF MinTrues(Ss) < n /\ (\E i \in DOMAIN Ss : "F" \in Ss[i]) THEN {"F"} ELSE {})
+                  \cup (IF (\A i \in DOMAIN Ss : Ss[i] # {"F"}) /\ MinTNoF(Ss) < n THEN {"M"} ELSE {}))
+  ELSE (IF MaxTrues(Ss) >= 1 THEN {"F"} ELSE {})
+       \cup (IF (\A i \in DOMAIN Ss : Ss[i] # {"T"}) /\ (\E i \in DOMAIN Ss : "F" \in Ss[i]) THEN {"T"} ELSE {})
+       \cup (IF \A i \in DOMAIN Ss : "M" \in Ss[i] THEN {"M"} ELSE {})
 
 (* reference definitions by explicit product, used by MC_Tri to check the   *)
 (* closed forms above                                                       *)
